@@ -259,6 +259,118 @@ def arity_expr_ok(a, fn):
     return False
 
 
+def pipeline_vocabulary(chk, repo, gen, tier, TF):
+    """Bounded whole-pipeline cross-check: the interpreted tokenise -> parse ->
+    transpile_ast is run on every raw string of length <= 2 (3 thorough) over
+    an adversarial alphabet; wherever the output parses, every identifier in
+    it must come from the fixed vocabulary of the templates or be a
+    fixed-prefix name with an identifier tail."""
+    import re  # noqa: PLC0415
+    import warnings  # noqa: PLC0415
+    from ..grammar import make_shapes  # noqa: PLC0415
+    vocab = set()
+
+    def harvest(text):
+        try:
+            with warnings.catch_warnings():
+                warnings.simplefilter("ignore")
+                tree = ast.parse(text)
+        except SyntaxError:
+            return
+        for n in ast.walk(tree):
+            if isinstance(n, ast.Name):
+                vocab.add(n.id)
+            elif isinstance(n, ast.Attribute):
+                vocab.add(n.attr)
+            elif isinstance(n, ast.arg):
+                vocab.add(n.arg)
+            elif isinstance(n, ast.keyword) and n.arg:
+                vocab.add(n.arg)
+            elif isinstance(n, ast.FunctionDef):
+                vocab.add(n.name)
+    for v in gen.elements().values():
+        if isinstance(v, tuple) and isinstance(v[0], str):
+            harvest(v[0])
+    for v in gen.modifiers().values():
+        if isinstance(v, str):
+            harvest(v)
+    for kind in gen.kinds():
+        for val in ("1", "1.5", "°", "1°2", "a", "", "_a", "ab"):
+            try:
+                harvest(gen.transpile_token(gen.token(kind, val), 0))
+            except Exception:  # noqa: BLE001
+                pass
+    pp = gen.it.module("vyxal.parse")
+    parse_mods = {n: list(pp.get(n)) for n in (
+        "MONADIC_MODIFIERS", "DYADIC_MODIFIERS", "TRIADIC_MODIFIERS")}
+    for shape in make_shapes(gen, "quick", parse_mods):
+        try:
+            harvest(gen.transpile_ast([shape.build(gen, {})], 0))
+        except Exception:  # noqa: BLE001
+            pass
+    for which in ("BreakStatement", "RecurseStatement"):
+        for cls in ("Lambda", "ForLoop", "FunctionDef", "MonadicModifier",
+                    None):
+            try:
+                harvest(gen.transpile_ast([gen.struct(which, gen.cls(cls))], 0))
+            except Exception:  # noqa: BLE001
+                pass
+    vocab = {v for v in vocab if not v.startswith(("VAR_", "_lambda_",
+                                                   "HOLE_"))}
+    allowed = re.compile(r"^(VAR_[A-Za-z0-9_]*|_lambda_[0-9A-Za-z]+)$")
+    marker = "pwn"
+    alphabet = ['"', "'", "\\", "\n", "`", "[", "]", "(", ")", "^", ":", ";",
+                "|", "@", "λ", "→", "←", "‛", "»", "«", "⁺", "#", "k", "X",
+                "v", "0", ".", " ", marker]
+    tokenise = gen.it.module("vyxal.lexer").get("tokenise")
+    parse = pp.get("parse")
+    maxlen = 3 if tier == "thorough" else 2
+    n = 0
+    parsed = 0
+    bad = None
+    import itertools as _it  # noqa: PLC0415
+    from ..pe import PRaise  # noqa: PLC0415
+    for ln in range(1, maxlen + 1):
+        # length 3: drop the characters that only matter pairwise
+        alpha = alphabet if ln < 3 else [c for c in alphabet
+                                         if c not in "]|k.0 :←«"]
+        for tup in _it.product(alpha, repeat=ln):
+            prog = "".join(tup)
+            n += 1
+            gen.it.steps = 0
+            try:
+                code = gen.transpile_ast(list(parse(tokenise(prog))), 0)
+            except (GeneratorRaised, PRaise, StopIteration):
+                continue  # no code returned
+            try:
+                with warnings.catch_warnings():
+                    warnings.simplefilter("ignore")
+                    tree = ast.parse(code)
+            except (SyntaxError, ValueError):
+                continue
+            parsed += 1
+            for node in ast.walk(tree):
+                ident = None
+                if isinstance(node, ast.Name):
+                    ident = node.id
+                elif isinstance(node, ast.Attribute):
+                    ident = node.attr
+                elif isinstance(node, ast.FunctionDef):
+                    ident = node.name
+                if ident is None or ident in vocab or allowed.match(ident):
+                    continue
+                bad = bad or (prog, ident, code.strip()[:120])
+    chk.ob("C18.pipeline-identifiers-from-vocabulary", "tokenise+parse+transpile",
+           bad is None,
+           f"program {bad[0]!r} transpiles to code containing the identifier "
+           f"`{bad[1]}`, which is neither template vocabulary nor a "
+           f"fixed-prefix name: {bad[2]!r}" if bad else "", TF,
+           witness=repr(bad[0]) if bad else None,
+           sample={"raw programs": n, "outputs that parse": parsed,
+                   "template vocabulary": len(vocab)})
+    chk.unit("raw programs through the interpreted pipeline", n)
+
+
 def check(chk, repo, tier):
     gen = Gen(repo)
     it = gen.it
@@ -322,6 +434,8 @@ def check(chk, repo, tier):
                f"{k} values are no longer restricted to a character set",
                repo.mod("lexer").rel,
                sample={"kind": k, "language": lang.describe() if lang else None})
+
+    pipeline_vocabulary(chk, repo, gen, tier, TF)
 
     chk.explanation = (
         "Decides, for every string given to the transpiler, that program "
